@@ -12,7 +12,7 @@ structure InvB (s : St) : Prop where
   dels : ∀ i c, s.conns[i]? = some c → delsOf (s.conns.length - 1 - i) s.log = (List.range c.delivered).reverse
   none : ∀ j, j ≥ s.conns.length → delsOf j s.log = []
 
-theorem invB_init : InvB init := ⟨by simp [init], by simp [init, delsOf]⟩
+theorem invB_init (nc rc : Nat) : InvB (initWith nc rc) := ⟨by simp [initWith], by simp [initWith, delsOf]⟩
 
 /-- steps that keep the connections' `delivered` counters and add a non-delivery event (or nothing) to the log -/
 theorem InvB.of_same {s s' : St} (hi : InvB s) (hlen : s'.conns.length = s.conns.length)
@@ -39,10 +39,15 @@ theorem set_same {cs : List Conn} {i : Nat} {c c' : Conn} (hc : cs[i]? = some c)
 theorem invB_step (ae : Bool) (s s' : St) (l : Lbl) (hi : InvB s) (hs : step ae s l = some s') : InvB s' := by
   cases l with
   | cancel => have := step_cancel hs; subst this; exact ⟨hi.dels, hi.none⟩
+  | offer => have := step_offer hs; subst this; exact ⟨hi.dels, hi.none⟩
+  | consumerStop => have := step_consumerStop hs; subst this; exact ⟨hi.dels, hi.none⟩
+  | consumerResume => have := step_consumerResume hs; subst this; exact ⟨hi.dels, hi.none⟩
+  | tick d => have := step_tick hs; subst this; exact ⟨hi.dels, hi.none⟩
   | dialFail => obtain ⟨_, rfl⟩ := step_dialFail hs; exact ⟨hi.dels, hi.none⟩
-  | noConnTimer => obtain ⟨_, rfl⟩ := step_noConnTimer hs; exact ⟨hi.dels, hi.none⟩
+  | noConnTimer => obtain ⟨_, _, rfl⟩ := step_noConnTimer hs; exact ⟨hi.dels, hi.none⟩
+  | noConnDrain => obtain ⟨_, _, rfl⟩ := step_noConnDrain hs; exact ⟨hi.dels, hi.none⟩
   | sleepDone =>
-    obtain ⟨_, rfl⟩ := step_sleepDone hs
+    obtain ⟨_, _, rfl⟩ := step_sleepDone hs
     exact hi.of_same rfl (fun i c h => ⟨c, h, rfl⟩) (fun j => by simp [delsOf])
   | onConnect =>
     obtain ⟨_, rfl⟩ := step_onConnect hs
@@ -54,13 +59,19 @@ theorem invB_step (ae : Bool) (s s' : St) (l : Lbl) (hi : InvB s) (hs : step ae 
     obtain ⟨c, rest, hcs, _, _, rfl⟩ := step_onDisconnect hs
     exact hi.of_same rfl (fun i c h => ⟨c, h, rfl⟩) (fun j => by simp [delsOf])
   | readErr =>
-    obtain ⟨c, rest, hcs, _, _, rfl⟩ := step_readErr hs
+    obtain ⟨c, rest, hcs, _, _, _, rfl⟩ := step_readErr hs
     exact ⟨hi.dels, hi.none⟩
+  | readFault =>
+    obtain ⟨c, rest, hcs, _, _, _, _, _, _, rfl⟩ := step_readFault hs
+    exact hi.of_same (by simp [hcs]) (by rw [hcs]; exact head_same rfl) (fun j => rfl)
   | peerClose =>
     obtain ⟨c, rest, hcs, _, rfl⟩ := step_peerClose hs
     exact hi.of_same (by simp [hcs]) (by rw [hcs]; exact head_same rfl) (fun j => rfl)
-  | frameComplete =>
-    obtain ⟨c, rest, hcs, _, _, rfl⟩ := step_frameComplete hs
+  | byteArrive fin =>
+    obtain ⟨c, rest, hcs, _, _, rfl⟩ := step_byteArrive hs
+    exact hi.of_same (by simp [hcs]) (by rw [hcs]; exact head_same rfl) (fun j => rfl)
+  | takeFrame =>
+    obtain ⟨c, rest, hcs, _, _, _, _, rfl⟩ := step_takeFrame hs
     exact hi.of_same (by simp [hcs]) (by rw [hcs]; exact head_same rfl) (fun j => rfl)
   | spawnWriter =>
     obtain ⟨c, rest, hcs, _, rfl⟩ := step_spawnWriter hs
@@ -80,7 +91,16 @@ theorem invB_step (ae : Bool) (s s' : St) (l : Lbl) (hi : InvB s) (hs : step ae 
   | writerSeesQuit i =>
     obtain ⟨c, hcs, _, _, rfl⟩ := step_writerSeesQuit hs
     exact hi.of_same (by simp) (set_same hcs rfl) (fun j => rfl)
-  | dialOk =>
+  | writerTake i =>
+    obtain ⟨c, hcs, _, _, rfl⟩ := step_writerTake hs
+    exact hi.of_same (by simp) (set_same hcs rfl) (fun j => rfl)
+  | writeDone i =>
+    obtain ⟨c, hcs, _, _, rfl⟩ := step_writeDone hs
+    exact hi.of_same (by simp) (set_same hcs rfl) (fun j => rfl)
+  | writeErr i =>
+    obtain ⟨c, hcs, _, _, rfl⟩ := step_writeErr hs
+    exact hi.of_same (by simp) (set_same hcs rfl) (fun j => rfl)
+  | dialOk bin =>
     obtain ⟨_, rfl⟩ := step_dialOk hs
     refine ⟨fun i c h => ?_, fun j hj => ?_⟩
     · cases i with
@@ -125,7 +145,7 @@ theorem invB_step (ae : Bool) (s s' : St) (l : Lbl) (hi : InvB s) (hs : step ae 
 
 theorem invB_reachable {ae : Bool} {s : St} (h : Reachable ae s) : InvB s := by
   induction h with
-  | init => exact invB_init
+  | init nc rc => exact invB_init nc rc
   | step l _ hs ih => exact invB_step ae _ _ l ih hs
 
 end RawPanelVerif.Lifecycle
